@@ -147,6 +147,12 @@ func NewMerkleBlockWithTxnSet(block *bchutil.Block, txnSet []*chainhash.Hash) (*
 // by a bloom.Filter
 func (m *MerkleBlock) calcBlock(block *bchutil.Block) *wire.MsgMerkleBlock {
 
+	// A block without transactions has no merkle tree to traverse (the
+	// traversal below would index the empty hash list and panic).
+	if m.numTx == 0 {
+		return &wire.MsgMerkleBlock{Header: block.MsgBlock().Header}
+	}
+
 	// Calculate the number of merkle branches (height) in the tree.
 	height := uint32(0)
 	for m.calcTreeWidth(height) > 1 {
